@@ -28,9 +28,10 @@ MANIFEST = {
     "technique": "Coq trace models (spec: one resolver call per grouped key; impl: one per occurrence) + differential correspondence of resolver traces",
     "text": ("The executor models of C01 also produce the resolver invocation trace. Verdict: the real trace equals the model's, and no (node, field) is "
              "invoked more often than the specification's grouped execution invokes it. Refuted today (recorded finding): repeated response keys run the "
-             "resolver once per occurrence, e.g. mutation { a{id} a{id} } runs Mutation.a twice. Mutation root fields are resolved left to right in the "
-             "model (resolve_container_serial); order under suspended resolvers is not modelled here (partial)."),
-    "note": "trusted: Coq kernel, harness, sampled agreement; no axioms. Partial: serial order under arbitrary completion schedules not proved.",
+             "resolver once per occurrence, e.g. mutation { a{id} a{id} } runs Mutation.a twice. Second half: C04_serial / C04_serial_order (scheduler model "
+             "Sched.v): for every completion schedule the event log of a mutation splits into consecutive per-root-field segments; the scheduler "
+             "model is tied to the code by the gated, exhaustively scheduled runs of check C05 (which include mutations)."),
+    "note": "trusted: Coq kernel, harness, sampled agreement; no axioms. The serial-order theorems are about Sched.v, whose correspondence runs live in check C05.",
 }
 
 
